@@ -1,7 +1,7 @@
 /-
   C02 — source files are released only after validated receipt (SENDER half).
 
-  Model: Model/Release.lean (finish, validator loop, recover(), scan clean-up, tracker) — the
+  Model: Model/Release.lean (finish, validator loop, retry worker, recover(), scan clean-up, tracker) — the
   receiver half `positive_only_if_durably_validated` is in the Stage model.
 
   Theorems about the code with the proposed repairs (`Fixes.repaired`) unless they are
@@ -1234,6 +1234,541 @@ theorem restart_doneOK {Conf : CEntry → Prop} (k : Int) (st : St)
 
 
 
+/-! ## the retry worker (startRetry) -/
+
+theorem takeFault_mem (fl : List (Name × Fault)) (n : Name) (k : Fault)
+    (h : (takeFault fl n).1 = some k) : (n, k) ∈ fl := by
+  induction fl with
+  | nil => simp [takeFault] at h
+  | cons x xs ih =>
+    obtain ⟨m, j⟩ := x
+    unfold takeFault at h
+    split at h
+    · rename_i hm
+      simp only [Option.some.injEq] at h
+      subst hm; subst h; exact List.mem_cons_self
+    · exact List.mem_cons_of_mem _ (ih h)
+
+theorem takeFault_sub (fl : List (Name × Fault)) (n : Name) :
+    ∀ x ∈ (takeFault fl n).2, x ∈ fl := by
+  induction fl with
+  | nil => intro x hx; simp [takeFault] at hx
+  | cons y ys ih =>
+    obtain ⟨m, j⟩ := y
+    intro x hx
+    unfold takeFault at hx
+    split at hx
+    · exact List.mem_cons_of_mem _ hx
+    · simp only [List.mem_cons] at hx ⊢
+      rcases hx with hx | hx
+      · exact Or.inl hx
+      · exact Or.inr (ih x hx)
+
+theorem takeFault_none (fl : List (Name × Fault)) (n : Name) (h : ∀ k, (n, k) ∉ fl) :
+    (takeFault fl n).1 = none := by
+  induction fl with
+  | nil => rfl
+  | cons y ys ih =>
+    obtain ⟨m, j⟩ := y
+    unfold takeFault
+    split
+    · rename_i hm; subst hm; exact absurd List.mem_cons_self (h j)
+    · exact ih (fun k hk => h k (List.mem_cons_of_mem _ hk))
+
+/-- a lookup sees a name-preserving update of every entry as the update of what it found. -/
+theorem cget_map_names (c : Cache) (g : CEntry → CEntry) (hg : ∀ x, (g x).name = x.name) (m : Name) :
+    cget (c.map g) m = (cget c m).map g := by
+  unfold cget
+  induction c with
+  | nil => rfl
+  | cons x xs ih =>
+    simp only [List.map_cons, List.find?_cons]
+    by_cases hx : x.name = m
+    · simp [hx, hg]
+    · simp [hx, hg, ih]
+
+theorem cany_of_cget {c : Cache} {n : Name} {e : CEntry} (h : cget c n = some e) :
+    c.any (fun x => x.name = n) = true := by
+  obtain ⟨he, hn⟩ := cget_some h
+  exact List.any_eq_true.mpr ⟨e, he, by simpa using hn⟩
+
+/-- what cache add does to the entries of a name the cache holds. -/
+def reAdd (fx : Fixes) (n : Name) (sz t : Int) (h : String) (x : CEntry) : CEntry :=
+  if x.name = n then
+    { x with size := sz, time := t, hash := h, done := if fx.addReset then false else x.done }
+  else x
+
+theorem reAdd_name (fx : Fixes) (n : Name) (sz t : Int) (h : String) (x : CEntry) :
+    (reAdd fx n sz t h x).name = x.name := by
+  unfold reAdd; split <;> rfl
+
+theorem cadd_existing (fx : Fixes) (c : Cache) (n : Name) (sz t : Int) (h : String) (e : CEntry)
+    (he : cget c n = some e) : cadd fx c n sz t h = c.map (reAdd fx n sz t h) := by
+  unfold cadd
+  rw [if_pos (cany_of_cget he)]
+  rfl
+
+theorem cmark_eq_map (c : Cache) (n : Name) :
+    cmark c n = c.map (fun e => if e.name = n then { e with done := true } else e) := rfl
+
+/-- the version key the code compares (`Sync`): name, size, modification time. -/
+def keyOf (e : CEntry) : Name × Int × Int := (e.name, e.size, e.time)
+
+theorem sync_key (s : Store) (a b : CEntry) (h : keyOf a = keyOf b) : sync s a = sync s b := by
+  unfold keyOf at h
+  simp only [Prod.mk.injEq] at h
+  unfold sync
+  rw [h.1, h.2.1, h.2.2]
+
+theorem sfind_sremove_none (s : Store) (n m : Name) (h : sfind s m = none) : sfind (sremove s n) m = none := by
+  by_cases hm : m = n
+  · subst hm; exact sfind_sremove_self _ _
+  · rw [sfind_sremove_ne _ _ _ hm]; exact h
+
+/-- the tail of the loop body for a name the cache holds: the entry is re-added with its own size and
+    time and the given hash, and the whole file is queued with the polled file's predecessor. -/
+theorem retryRequeue_eq (fx : Fixes) (st : St) (f : RFile) (c : CEntry) (h : String)
+    (hc : cget st.cache f.name = some c) :
+    retryRequeue fx st f c h =
+      ({ st with cache := st.cache.map (reAdd fx f.name c.size c.time h), dirty := true },
+       [.cacheAdd f.name, .push (.resume f.name f.prev [⟨0, c.size⟩])]) ∧
+    cget (st.cache.map (reAdd fx f.name c.size c.time h)) f.name =
+      some { c with hash := h, done := if fx.addReset then false else c.done } := by
+  have hn : c.name = f.name := (cget_some hc).2
+  have hget : cget (st.cache.map (reAdd fx f.name c.size c.time h)) f.name =
+      some { c with hash := h, done := if fx.addReset then false else c.done } := by
+    rw [cget_map_names _ _ (reAdd_name fx f.name c.size c.time h), hc]
+    simp [reAdd, hn]
+  refine ⟨?_, hget⟩
+  unfold retryRequeue
+  simp only [cadd_existing fx st.cache f.name c.size c.time h c hc, hget]
+
+/-- the six ways through one iteration of startRetry. -/
+theorem retryOne_cases (fx : Fixes) (s : St × List (Name × Fault)) (f : RFile) :
+    (retryOne fx s f = (s, []) ∧
+      (cget s.1.cache f.name = none ∨ ∃ c, cget s.1.cache f.name = some c ∧ sync s.1.store c ≠ .same)) ∨
+    (∃ c, cget s.1.cache f.name = some c ∧ sync s.1.store c = .same ∧
+      (takeFault s.2 f.name).1 = some .gone ∧
+      retryOne fx s f = (({ s.1 with store := sremove s.1.store f.name }.cacheDone f.name,
+        (takeFault s.2 f.name).2), [.cacheDone f.name false])) ∨
+    (∃ c, cget s.1.cache f.name = some c ∧ sync s.1.store c = .same ∧
+      (takeFault s.2 f.name).1 = some .openErr ∧
+      retryOne fx s f = ((s.1, (takeFault s.2 f.name).2), [])) ∨
+    (∃ c h, cget s.1.cache f.name = some c ∧ sync s.1.store c = .same ∧
+      (((takeFault s.2 f.name).1 = some .readErr ∧ h = "") ∨
+       ((takeFault s.2 f.name).1 = none ∧ h = hashNow s.1.store f.name)) ∧
+      retryOne fx s f = (((retryRequeue fx s.1 f c h).1, (takeFault s.2 f.name).2),
+        (retryRequeue fx s.1 f c h).2)) := by
+  unfold retryOne
+  split
+  · rename_i hc
+    exact Or.inl ⟨rfl, Or.inl hc⟩
+  · rename_i c hc
+    split
+    · rename_i hs
+      exact Or.inl ⟨rfl, Or.inr ⟨c, hc, by rw [hs]; simp⟩⟩
+    · rename_i hs
+      exact Or.inl ⟨rfl, Or.inr ⟨c, hc, by rw [hs]; simp⟩⟩
+    · rename_i hs
+      split
+      · rename_i hf
+        exact Or.inr (Or.inl ⟨c, hc, hs, hf, rfl⟩)
+      · rename_i hf
+        exact Or.inr (Or.inr (Or.inl ⟨c, hc, hs, hf, rfl⟩))
+      · rename_i hf
+        exact Or.inr (Or.inr (Or.inr ⟨c, "", hc, hs, Or.inl ⟨hf, rfl⟩, rfl⟩))
+      · rename_i hf
+        exact Or.inr (Or.inr (Or.inr ⟨c, _, hc, hs, Or.inr ⟨hf, rfl⟩, rfl⟩))
+
+theorem cacheDone_key (st : St) (m n : Name) :
+    (cget (st.cacheDone m).cache n).map keyOf = (cget st.cache n).map keyOf := by
+  unfold St.cacheDone
+  split
+  · rfl
+  · split
+    · rfl
+    · simp only [cmark_eq_map]
+      rw [cget_map_names _ _ (by intro x; split <;> rfl)]
+      cases cget st.cache n with
+      | none => rfl
+      | some x =>
+        simp only [Option.map_some]
+        congr 1
+        split <;> rfl
+
+/-- one iteration never drops a cache entry and never changes the size or time of one: for every name
+    a lookup finds the same version key as before. -/
+theorem retryOne_key (fx : Fixes) (s : St × List (Name × Fault)) (f : RFile) (n : Name) :
+    (cget (retryOne fx s f).1.1.cache n).map keyOf = (cget s.1.cache n).map keyOf := by
+  rcases retryOne_cases fx s f with ⟨h, _⟩ | ⟨c, hc, hs, hf, h⟩ | ⟨c, hc, hs, hf, h⟩ | ⟨c, hh, hc, hs, hf, h⟩
+  · rw [h]
+  · rw [h]
+    exact cacheDone_key { s.1 with store := sremove s.1.store f.name } f.name n
+  · rw [h]
+  · rw [h, (retryRequeue_eq fx s.1 f c hh hc).1]
+    simp only
+    rw [cget_map_names _ _ (reAdd_name fx f.name c.size c.time hh)]
+    cases hcn : cget s.1.cache n with
+    | none => rfl
+    | some x =>
+      simp only [Option.map_some]
+      congr 1
+      unfold reAdd
+      split
+      · rename_i hx
+        have hxn : x.name = n := (cget_some hcn).2
+        rw [← hxn, hx, hc] at hcn
+        cases hcn
+        rfl
+      · rfl
+
+/-- … and it sets a done mark only on the entry of a file whose open reported not-exist. -/
+theorem retryOne_done (fx : Fixes) (s : St × List (Name × Fault)) (f : RFile) (n : Name) (e1 e : CEntry)
+    (h1 : cget s.1.cache n = some e1) (h2 : cget (retryOne fx s f).1.1.cache n = some e)
+    (hd : e.done = true) :
+    e1.done = true ∨ (n = f.name ∧ (takeFault s.2 f.name).1 = some .gone) := by
+  have hxn : e1.name = n := (cget_some h1).2
+  rcases retryOne_cases fx s f with ⟨h, _⟩ | ⟨c, hc, hs, hf, h⟩ | ⟨c, hc, hs, hf, h⟩ | ⟨c, hh, hc, hs, hf, h⟩
+  · rw [h, h1] at h2; cases h2; exact Or.inl hd
+  · by_cases hn : n = f.name
+    · exact Or.inr ⟨hn, hf⟩
+    · refine Or.inl ?_
+      rw [h] at h2
+      simp only at h2
+      unfold St.cacheDone at h2
+      split at h2
+      · rw [h1] at h2; cases h2; exact hd
+      · split at h2
+        · rw [h1] at h2; cases h2; exact hd
+        · simp only at h2
+          rw [cget_cmark_ne _ _ _ hn, h1] at h2
+          cases h2; exact hd
+  · rw [h, h1] at h2; cases h2; exact Or.inl hd
+  · refine Or.inl ?_
+    rw [h, (retryRequeue_eq fx s.1 f c hh hc).1] at h2
+    simp only at h2
+    rw [cget_map_names _ _ (reAdd_name fx f.name c.size c.time hh), h1] at h2
+    simp only [Option.map_some, Option.some.injEq] at h2
+    subst h2
+    unfold reAdd at hd
+    split at hd
+    · simp only at hd
+      split at hd
+      · cases hd
+      · exact hd
+    · exact hd
+
+/-- the scripted faults are only used up. -/
+theorem retryOne_faults (fx : Fixes) (s : St × List (Name × Fault)) (f : RFile) :
+    ∀ x ∈ (retryOne fx s f).1.2, x ∈ s.2 := by
+  rcases retryOne_cases fx s f with ⟨h, _⟩ | ⟨c, hc, hs, hf, h⟩ | ⟨c, hc, hs, hf, h⟩ | ⟨c, hh, hc, hs, hf, h⟩
+  · rw [h]; exact fun x hx => hx
+  · rw [h]; exact takeFault_sub _ _
+  · rw [h]; exact takeFault_sub _ _
+  · rw [h]; exact takeFault_sub _ _
+
+/-- the store changes only where a file vanishes (scripted `gone`). -/
+theorem retryOne_store (fx : Fixes) (s : St × List (Name × Fault)) (f : RFile) (n : Name) :
+    sfind (retryOne fx s f).1.1.store n = sfind s.1.store n ∨
+    (n = f.name ∧ (takeFault s.2 f.name).1 = some .gone ∧ sfind (retryOne fx s f).1.1.store n = none) := by
+  rcases retryOne_cases fx s f with ⟨h, _⟩ | ⟨c, hc, hs, hf, h⟩ | ⟨c, hc, hs, hf, h⟩ | ⟨c, hh, hc, hs, hf, h⟩
+  · rw [h]; exact Or.inl rfl
+  · rw [h]
+    simp only [cacheDone_store]
+    by_cases hn : n = f.name
+    · exact Or.inr ⟨hn, hf, by rw [hn]; exact sfind_sremove_self _ _⟩
+    · exact Or.inl (sfind_sremove_ne _ _ _ hn)
+  · rw [h]; exact Or.inl rfl
+  · rw [h, (retryRequeue_eq fx s.1 f c hh hc).1]; exact Or.inl rfl
+
+theorem retryOne_store_none (fx : Fixes) (s : St × List (Name × Fault)) (f : RFile) (n : Name)
+    (h : sfind s.1.store n = none) : sfind (retryOne fx s f).1.1.store n = none := by
+  rcases retryOne_store fx s f n with h' | ⟨_, _, h'⟩
+  · rw [h']; exact h
+  · exact h'
+
+/-- what one iteration emits: `Cache.Done(name, nil)` exactly in the not-exist branch (the file is gone from
+    the store afterwards), `Cache.Add(name)`, or the push of the whole file with the polled predecessor. -/
+theorem retryOne_effs (fx : Fixes) (s : St × List (Name × Fault)) (f : RFile) (x : Eff)
+    (h : x ∈ (retryOne fx s f).2) :
+    (x = .cacheDone f.name false ∧ (takeFault s.2 f.name).1 = some .gone ∧
+      (∃ c, cget s.1.cache f.name = some c ∧ sync s.1.store c = .same) ∧
+      sfind (retryOne fx s f).1.1.store f.name = none) ∨
+    (∃ c, cget s.1.cache f.name = some c ∧ sync s.1.store c = .same ∧
+      (takeFault s.2 f.name).1 ≠ some .gone ∧ (takeFault s.2 f.name).1 ≠ some .openErr ∧
+      (x = .cacheAdd f.name ∨ x = .push (.resume f.name f.prev [⟨0, c.size⟩]))) := by
+  rcases retryOne_cases fx s f with ⟨h', _⟩ | ⟨c, hc, hs, hf, h'⟩ | ⟨c, hc, hs, hf, h'⟩ | ⟨c, hh, hc, hs, hf, h'⟩
+  · rw [h'] at h; simp at h
+  · rw [h'] at h ⊢
+    simp only [List.mem_singleton] at h
+    refine Or.inl ⟨h, hf, ⟨c, hc, hs⟩, ?_⟩
+    simp only [cacheDone_store]
+    exact sfind_sremove_self _ _
+  · rw [h'] at h; simp at h
+  · rw [h', (retryRequeue_eq fx s.1 f c hh hc).1] at h
+    simp only [List.mem_cons, List.not_mem_nil, or_false] at h
+    refine Or.inr ⟨c, hc, hs, ?_, ?_, h⟩
+    · rcases hf with ⟨hf, _⟩ | ⟨hf, _⟩ <;> rw [hf] <;> simp
+    · rcases hf with ⟨hf, _⟩ | ⟨hf, _⟩ <;> rw [hf] <;> simp
+
+/-- the loop invariant of startRetry with respect to the state `st` and the script `fl` it started with. -/
+def RetryInv (st : St) (fl : List (Name × Fault)) (t : St × List (Name × Fault)) : Prop :=
+  (∀ x ∈ t.2, x ∈ fl) ∧ (∀ n, (cget t.1.cache n).map keyOf = (cget st.cache n).map keyOf) ∧
+  (∀ n, sfind t.1.store n = sfind st.store n ∨ ((n, Fault.gone) ∈ fl ∧ sfind t.1.store n = none))
+
+theorem retryInv_init (st : St) (fl : List (Name × Fault)) : RetryInv st fl (st, fl) :=
+  ⟨fun _ hx => hx, fun _ => rfl, fun _ => Or.inl rfl⟩
+
+theorem retryInv_step (fx : Fixes) (st : St) (fl : List (Name × Fault)) (t : St × List (Name × Fault))
+    (f : RFile) (h : RetryInv st fl t) : RetryInv st fl (retryOne fx t f).1 := by
+  obtain ⟨h1, h2, h3⟩ := h
+  refine ⟨fun x hx => h1 x (retryOne_faults fx t f x hx), fun n => (retryOne_key fx t f n).trans (h2 n), ?_⟩
+  intro n
+  rcases retryOne_store fx t f n with h' | ⟨hn, hf, h'⟩
+  · rcases h3 n with h'' | ⟨hg, h''⟩
+    · exact Or.inl (h'.trans h'')
+    · exact Or.inr ⟨hg, by rw [h']; exact h''⟩
+  · exact Or.inr ⟨by rw [hn]; exact h1 _ (takeFault_mem _ _ _ hf), h'⟩
+
+theorem retryInv_run (fx : Fixes) (st : St) (fl : List (Name × Fault)) (fs : List RFile) :
+    RetryInv st fl (runLoop (retryOne fx) (st, fl) fs).1 :=
+  runLoop_inv (retryOne fx) (RetryInv st fl) fs (fun t f _ ht => retryInv_step fx st fl t f ht) _
+    (retryInv_init st fl)
+
+/-- C02 `retry_releases_only_vanished`: the retry worker calls `Cache.Done(m)` only without closure (nothing
+    is deleted), only for a file it took off the retry channel whose name the cache holds, and only when the
+    open of that file reported not-exist (the scripted `gone` for that name): the file is gone from the store
+    when the worker is through. Any other error of the open or of reading the file marks nothing done. -/
+theorem retry_releases_only_vanished (fx : Fixes) (st : St) (fs : List RFile) (fl : List (Name × Fault))
+    (m : Name) (c : Bool) (h : Eff.cacheDone m c ∈ (retryRun fx st fs fl).2) :
+    c = false ∧ (m, Fault.gone) ∈ fl ∧ (∃ f ∈ fs, f.name = m) ∧ (∃ e, cget st.cache m = some e) ∧
+    sfind (retryRun fx st fs fl).1.store m = none := by
+  unfold retryRun at h ⊢
+  simp only at h ⊢
+  obtain ⟨pre, x, post, hfs, hx⟩ := runLoop_split (retryOne fx) fs (st, fl) _ h
+  have hinv := retryInv_run fx st fl pre
+  rcases retryOne_effs fx _ x _ hx with ⟨he, hf, ⟨c', hc', _⟩, hgone⟩ | ⟨c', _, _, _, _, he⟩
+  · simp only [Eff.cacheDone.injEq] at he
+    obtain ⟨rfl, rfl⟩ := he
+    refine ⟨rfl, hinv.1 _ (takeFault_mem _ _ _ hf), ⟨x, by rw [hfs]; simp, rfl⟩, ?_, ?_⟩
+    · have := hinv.2.1 x.name
+      rw [hc'] at this
+      cases hst : cget st.cache x.name with
+      | none => rw [hst] at this; simp at this
+      | some e => exact ⟨e, rfl⟩
+    · rw [hfs, runLoop_append, runLoop_cons]
+      simp only
+      exact runLoop_inv (retryOne fx) (fun t => sfind t.1.store x.name = none) post
+        (fun t g _ ht => retryOne_store_none fx t g _ ht) _ hgone
+  · rcases he with he | he <;> simp at he
+
+/-- C02 `retry_requeues_or_keeps`, one iteration of startRetry for a file `f` whose name the cache holds
+    (entry `c`) and whose file `Sync` reports unchanged:
+    * the open fails with an error other than not-exist: nothing happens at all — the entry stays in the
+      cache as it was (not done if it was not done), nothing is queued;
+    * reading the opened file fails: the entry is re-added with an empty hash (repaired add: not done) and
+      the whole file is queued with the predecessor the polled file announced;
+    * no error: the same with the hash of the file's current content. -/
+theorem retry_requeues_or_keeps (fx : Fixes) (s : St × List (Name × Fault)) (f : RFile) (c : CEntry)
+    (hc : cget s.1.cache f.name = some c) (hs : sync s.1.store c = .same) :
+    ((takeFault s.2 f.name).1 = some .openErr →
+      (retryOne fx s f).1.1 = s.1 ∧ (retryOne fx s f).2 = []) ∧
+    (∀ h, ((takeFault s.2 f.name).1 = some .readErr ∧ h = "") ∨
+          ((takeFault s.2 f.name).1 = none ∧ h = hashNow s.1.store f.name) →
+      (retryOne fx s f).2 = [.cacheAdd f.name, .push (.resume f.name f.prev [⟨0, c.size⟩])] ∧
+      (retryOne fx s f).1.1.store = s.1.store ∧
+      cget (retryOne fx s f).1.1.cache f.name =
+        some { c with hash := h, done := if fx.addReset then false else c.done } ∧
+      ∀ n, n ≠ f.name → cget (retryOne fx s f).1.1.cache n = cget s.1.cache n) := by
+  rcases retryOne_cases fx s f with ⟨_, h⟩ | ⟨c', hc', _, hf, _⟩ | ⟨c', hc', _, hf, h⟩ | ⟨c', hh, hc', _, hf, h⟩
+  · rcases h with h | ⟨c', hc', hs'⟩
+    · rw [hc] at h; cases h
+    · rw [hc] at hc'; cases hc'; exact absurd hs hs'
+  · constructor
+    · intro hf'; rw [hf] at hf'; cases hf'
+    · intro h' hf'
+      rcases hf' with ⟨hf', _⟩ | ⟨hf', _⟩ <;> (rw [hf] at hf'; cases hf')
+  · constructor
+    · intro _; rw [h]; exact ⟨rfl, rfl⟩
+    · intro h' hf'
+      rcases hf' with ⟨hf', _⟩ | ⟨hf', _⟩ <;> (rw [hf] at hf'; cases hf')
+  · rw [hc] at hc'; cases hc'
+    constructor
+    · intro hf'
+      rcases hf with ⟨hf, _⟩ | ⟨hf, _⟩ <;> (rw [hf] at hf'; cases hf')
+    · intro h' hf'
+      have hh' : hh = h' := by
+        rcases hf with ⟨hf, e1⟩ | ⟨hf, e1⟩ <;> rcases hf' with ⟨hf', e2⟩ | ⟨hf', e2⟩
+        · rw [e1, e2]
+        · rw [hf] at hf'; cases hf'
+        · rw [hf] at hf'; cases hf'
+        · rw [e1, e2]
+      subst hh'
+      obtain ⟨heq, hget⟩ := retryRequeue_eq fx s.1 f c hh hc
+      rw [h, heq]
+      refine ⟨rfl, rfl, hget, ?_⟩
+      intro n hn
+      simp only
+      rw [cget_map_names _ _ (reAdd_name fx f.name c.size c.time hh)]
+      cases hcn : cget s.1.cache n with
+      | none => rfl
+      | some x =>
+        have hxn : x.name = n := (cget_some hcn).2
+        simp only [Option.map_some, Option.some.injEq]
+        unfold reAdd
+        rw [if_neg (by rw [hxn]; exact hn)]
+
+/-- the whole retry worker never forgets a cache entry: whatever a lookup found before, it finds afterwards
+    with the same name, size and time, and done only if it was done before or the open of that name reported
+    not-exist. -/
+theorem retry_keeps_entries (fx : Fixes) (st : St) (fs : List RFile) (fl : List (Name × Fault))
+    (n : Name) (e0 : CEntry) (h0 : cget st.cache n = some e0) :
+    ∃ e, cget (retryRun fx st fs fl).1.cache n = some e ∧ keyOf e = keyOf e0 ∧
+      (e.done = true → e0.done = true ∨ (n, Fault.gone) ∈ fl) := by
+  unfold retryRun
+  simp only
+  have := runLoop_inv (retryOne fx)
+    (fun t => (∀ x ∈ t.2, x ∈ fl) ∧ ∃ e, cget t.1.cache n = some e ∧ keyOf e = keyOf e0 ∧
+      (e.done = true → e0.done = true ∨ (n, Fault.gone) ∈ fl)) fs
+    (fun t f _ ht => by
+      obtain ⟨hsub, e1, h1, hk1, hd1⟩ := ht
+      refine ⟨fun x hx => hsub x (retryOne_faults fx t f x hx), ?_⟩
+      have hk := retryOne_key fx t f n
+      rw [h1] at hk
+      cases h2 : cget (retryOne fx t f).1.1.cache n with
+      | none => rw [h2] at hk; simp at hk
+      | some e =>
+        rw [h2] at hk
+        simp only [Option.map_some, Option.some.injEq] at hk
+        refine ⟨e, rfl, hk.trans hk1, fun hd => ?_⟩
+        rcases retryOne_done fx t f n e1 e h1 h2 hd with hd' | ⟨hn, hf⟩
+        · exact hd1 hd'
+        · exact Or.inr (by rw [hn]; exact hsub _ (takeFault_mem _ _ _ hf)))
+    (st, fl) ⟨fun _ hx => hx, e0, h0, rfl, fun hd => Or.inl hd⟩
+  exact this.2
+
+/-- every file the retry worker queues is one it took off the retry channel, whose name the cache held
+    when the worker started; it is queued whole (one range, byte 0 to the size of the cache entry) and
+    announces the predecessor the polled file announced. The worker emits nothing but `Cache.Done(·, nil)`,
+    `Cache.Add` and such pushes: it never deletes and never persists. -/
+theorem retry_pushes_whole (fx : Fixes) (st : St) (fs : List RFile) (fl : List (Name × Fault)) (x : Eff)
+    (h : x ∈ (retryRun fx st fs fl).2) :
+    (∃ m, x = .cacheDone m false) ∨ (∃ m, x = .cacheAdd m) ∨
+    ∃ f ∈ fs, ∃ e0, cget st.cache f.name = some e0 ∧ x = .push (.resume f.name f.prev [⟨0, e0.size⟩]) := by
+  unfold retryRun at h
+  simp only at h
+  obtain ⟨pre, y, post, hfs, hx⟩ := runLoop_split (retryOne fx) fs (st, fl) _ h
+  have hinv := retryInv_run fx st fl pre
+  rcases retryOne_effs fx _ y _ hx with ⟨he, _⟩ | ⟨c', hc', _, _, _, he⟩
+  · exact Or.inl ⟨_, he⟩
+  · rcases he with he | he
+    · exact Or.inr (Or.inl ⟨_, he⟩)
+    · refine Or.inr (Or.inr ⟨y, by rw [hfs]; simp, ?_⟩)
+      have := hinv.2.1 y.name
+      rw [hc'] at this
+      cases hst : cget st.cache y.name with
+      | none => rw [hst] at this; simp at this
+      | some e0 =>
+        rw [hst] at this
+        simp only [Option.map_some, Option.some.injEq, keyOf, Prod.mk.injEq] at this
+        exact ⟨e0, rfl, by rw [he, this.2.1]⟩
+
+theorem retryRun_no_storeRemove (fx : Fixes) (st : St) (fs : List RFile) (fl : List (Name × Fault))
+    (m : Name) (e : CEntry) (f : Option SFile) : Eff.storeRemove m e f ∉ (retryRun fx st fs fl).2 := by
+  intro h
+  rcases retry_pushes_whole fx st fs fl _ h with ⟨_, h'⟩ | ⟨_, h'⟩ | ⟨_, _, _, _, h'⟩ <;> simp at h'
+
+/-- the whole retry worker loses nothing it can read: a file taken off the retry channel whose name the cache
+    holds, that `Sync` reports unchanged, and for whose name no fault is scripted, is queued again — whole, with
+    the predecessor it was polled with — whatever happens to the other files of the run. -/
+theorem retry_run_requeues (fx : Fixes) (st : St) (fs : List RFile) (fl : List (Name × Fault))
+    (f : RFile) (hf : f ∈ fs) (c : CEntry) (hc : cget st.cache f.name = some c)
+    (hs : sync st.store c = .same) (hnf : ∀ k, (f.name, k) ∉ fl) :
+    Eff.push (.resume f.name f.prev [⟨0, c.size⟩]) ∈ (retryRun fx st fs fl).2 := by
+  unfold retryRun
+  simp only
+  obtain ⟨pre, post, hfs⟩ := List.append_of_mem hf
+  rw [hfs, runLoop_append, runLoop_cons]
+  simp only [List.mem_append]
+  refine Or.inr (Or.inl ?_)
+  obtain ⟨h1, h2, h3⟩ := retryInv_run fx st fl pre
+  have hk := h2 f.name
+  rw [hc] at hk
+  cases hc' : cget (runLoop (retryOne fx) (st, fl) pre).1.1.cache f.name with
+  | none => rw [hc'] at hk; simp at hk
+  | some c' =>
+    rw [hc'] at hk
+    simp only [Option.map_some, Option.some.injEq] at hk
+    have hstore : sfind (runLoop (retryOne fx) (st, fl) pre).1.1.store f.name = sfind st.store f.name := by
+      rcases h3 f.name with h | ⟨h, _⟩
+      · exact h
+      · exact absurd h (hnf _)
+    have hcn : c'.name = f.name := (cget_some hc').2
+    have hcn0 : c.name = f.name := (cget_some hc).2
+    have hs' : sync (runLoop (retryOne fx) (st, fl) pre).1.1.store c' = .same := by
+      rw [sync_key _ c' c hk]
+      unfold sync at hs ⊢
+      rw [hcn0] at hs ⊢
+      rw [hstore]; exact hs
+    have hno : (takeFault (runLoop (retryOne fx) (st, fl) pre).1.2 f.name).1 = none :=
+      takeFault_none _ _ (fun k hk' => hnf k (h1 _ hk'))
+    have := ((retry_requeues_or_keeps fx _ f c' hc' hs').2 _ (Or.inr ⟨hno, rfl⟩)).1
+    rw [this]
+    simp only [keyOf, Prod.mk.injEq] at hk
+    rw [hk.2.1]
+    simp
+
+/-! ### the retry worker keeps the invariant -/
+
+/-- one iteration of the retry worker (repaired cache add) keeps `DoneOK`: the one done mark it sets is on the
+    entry of a file that is gone from the store at that instant; a re-added entry is not done. `P` is any
+    property of the sender state the iterations preserve (reachability, in `done_means_confirmed`). -/
+theorem retryOne_doneOK {Conf : CEntry → Prop} (hv : VerPred Conf) (P : St → Prop)
+    (Hvan : ∀ t n, P t → ∀ e ∈ t.cache, sync (sremove t.store n) e = .absent → Conf e)
+    (s : St × List (Name × Fault)) (f : RFile) (hp : P s.1) (h0 : DoneOK Conf s.1.cache) :
+    DoneOK Conf (retryOne Fixes.repaired s f).1.1.cache ∧ (retryOne Fixes.repaired s f).1.1.disk = s.1.disk := by
+  rcases retryOne_cases Fixes.repaired s f with ⟨h, _⟩ | ⟨c, hc, hs, hf, h⟩ | ⟨c, hc, hs, hf, h⟩ | ⟨c, hh, hc, hs, hf, h⟩
+  · rw [h]; exact ⟨h0, rfl⟩
+  · rw [h]
+    refine ⟨?_, cacheDone_disk _ _⟩
+    apply doneOK_cacheDone hv { s.1 with store := sremove s.1.store f.name } f.name h0
+    intro e he hn
+    apply Hvan s.1 f.name hp e he
+    rw [sync_absent_iff, hn]
+    exact sfind_sremove_self _ _
+  · rw [h]; exact ⟨h0, rfl⟩
+  · rw [h, (retryRequeue_eq Fixes.repaired s.1 f c hh hc).1]
+    refine ⟨?_, rfl⟩
+    intro e he hd
+    simp only at he
+    obtain ⟨x, hx, rfl⟩ := List.mem_map.mp he
+    unfold reAdd at hd ⊢
+    split at hd
+    · simp [Fixes.repaired] at hd
+    · rename_i hn
+      rw [if_neg hn]
+      exact h0 x hx hd
+
+theorem retryRun_doneOK {Conf : CEntry → Prop} (hv : VerPred Conf) (P : St → Prop)
+    (hP : ∀ (s : St × List (Name × Fault)) f, P s.1 → P (retryOne Fixes.repaired s f).1.1)
+    (Hvan : ∀ t n, P t → ∀ e ∈ t.cache, sync (sremove t.store n) e = .absent → Conf e)
+    (st : St) (fs : List RFile) (fl : List (Name × Fault))
+    (hp : P st) (h0 : DoneOK Conf st.cache) (h0d : DoneOK Conf st.disk) :
+    DoneOK Conf (retryRun Fixes.repaired st fs fl).1.cache ∧
+    DoneOK Conf (retryRun Fixes.repaired st fs fl).1.disk := by
+  unfold retryRun
+  simp only
+  have := runLoop_inv (retryOne Fixes.repaired)
+    (fun t => P t.1 ∧ DoneOK Conf t.1.cache ∧ t.1.disk = st.disk) fs
+    (fun t f _ ht => by
+      have := retryOne_doneOK hv P Hvan t f ht.1 ht.2.1
+      exact ⟨hP t f ht.1, this.1, this.2.trans ht.2.2⟩)
+    (st, fl) ⟨hp, h0, rfl⟩
+  exact ⟨this.2.1, by rw [this.2.2]; exact h0d⟩
+
+
+
+
 /-! ## runs: every step of the sender, from every state -/
 
 /-- the steps of the sender as far as releases are concerned. `world` is the environment:
@@ -1246,6 +1781,9 @@ inductive Op
   | restart (k : Int)
   | world (store : Store) (answers : List (Name × List Verdict)) (pollErrs recErrs : Nat)
       (logged : List (Name × String)) (partials : List Partial)
+  /-- the retry worker (startRetry) takes `files` off the retry channel; `faults` is what the store does to
+      its opens (a file vanishing between `Sync` and the open, an open error, a read error) -/
+  | retry (files : List RFile) (faults : List (Name × Fault))
 
 def step (fx : Fixes) (env : Env) (st : St) : Op → St × List Eff
   | .recover => ((recover fx env st).st, (recover fx env st).effs)
@@ -1255,6 +1793,7 @@ def step (fx : Fixes) (env : Env) (st : St) : Op → St × List Eff
   | .world store answers pe re logged partials =>
     ({ st with store := store, answers := answers, pollErrs := pe, recErrs := re, logged := logged,
                partials := partials }, [])
+  | .retry fs fl => retryRun fx st fs fl
 
 /-- states reachable from `st0` by any sequence of steps (crash = `restart` at any boundary). -/
 inductive Reach (fx : Fixes) (env : Env) (st0 : St) : St → Prop
@@ -1269,7 +1808,9 @@ inductive Reach (fx : Fixes) (env : Env) (st0 : St) : St → Prop
       the cache held when the step began;
     * `Cache.Done n` happens only (a) with finish()'s closure after a positive answer about
       `n` in that step, or (b) without closure in recover() for a not done entry whose file
-      the store reports gone. -/
+      the store reports gone, or (c) without closure in the retry worker for a file it took off
+      the retry channel whose open reported not-exist (the file is gone when the step ends) —
+      never on any other error of the open or of reading the file (seeded change C02e). -/
 theorem release_sites (fx : Fixes) (env : Env) (st : St) (op : Op) :
     (∀ m e f, Eff.storeRemove m e f ∈ (step fx env st op).2 →
       e.name = m ∧ canDelete env e = true ∧ (∃ e0 ∈ st.cache, SameVer e0 e) ∧
@@ -1279,7 +1820,9 @@ theorem release_sites (fx : Fixes) (env : Env) (st : St) (op : Op) :
     (∀ m c, Eff.cacheDone m c ∈ (step fx env st op).2 →
       (c = true ∧ PositiveAnswer (step fx env st op).2 m) ∨
       (c = false ∧ op = .recover ∧ ∃ e ∈ st.cache, e.name = m ∧ e.done = false ∧
-        sync st.store e = .absent)) := by
+        sync st.store e = .absent) ∨
+      (c = false ∧ (∃ fs fl, op = .retry fs fl ∧ (m, Fault.gone) ∈ fl ∧ ∃ f ∈ fs, f.name = m) ∧
+        (∃ e, cget st.cache m = some e) ∧ sfind (step fx env st op).1.store m = none)) := by
   cases op with
   | recover =>
     constructor
@@ -1289,7 +1832,7 @@ theorem release_sites (fx : Fixes) (env : Env) (st : St) (op : Op) :
     · intro m c h
       rcases recover_cacheDone fx env st m c h with h' | ⟨h1, h2⟩
       · exact Or.inl h'
-      · exact Or.inr ⟨h1, rfl, h2⟩
+      · exact Or.inr (Or.inl ⟨h1, rfl, h2⟩)
   | scan =>
     constructor
     · intro m e f h
@@ -1336,6 +1879,13 @@ theorem release_sites (fx : Fixes) (env : Env) (st : St) (op : Op) :
       exact this fuel (st, fs) h
   | restart k => simp [step]
   | world => simp [step]
+  | retry fs fl =>
+    constructor
+    · intro m e f h
+      exact absurd h (retryRun_no_storeRemove fx st fs fl m e f)
+    · intro m c h
+      obtain ⟨h1, h2, h3, h4, h5⟩ := retry_releases_only_vanished fx st fs fl m c h
+      exact Or.inr (Or.inr ⟨h1, ⟨fs, fl, rfl, h2, h3⟩, h4, h5⟩)
 
 /-- C02, repaired code: whatever is deleted is, at that instant, the version the cache entry
     describes (same size and modification time) — no step ever deletes a file that was
@@ -1348,6 +1898,7 @@ theorem deletes_cached_version (env : Env) (st : St) (op : Op) (m : Name) (e : C
   | validate fs fuel => exact ((validateRun_release _ env fuel (st, fs)).1 m e f h).2.2.2.2.2 rfl
   | restart k => simp [step] at h
   | world => simp [step] at h
+  | retry fs fl => exact absurd h (retryRun_no_storeRemove _ st fs fl m e f)
 
 
 
@@ -1384,6 +1935,14 @@ theorem done_means_confirmed (env : Env) (st0 : St) (Conf : CEntry → Prop)
         (fun m v hm hp => hc.positive st hr (.validate fs fuel) m v hm hp)
     | restart k => exact restart_doneOK k st (hc.older k) ih.2
     | world => exact ih
+    | retry fs fl =>
+      -- every iteration of the retry worker is itself a step, so its intermediate states are reachable;
+      -- the file that vanishes between `Sync` and the open is a `world` step there
+      exact retryRun_doneOK hc.ver (fun t => Reach Fixes.repaired env st0 t)
+        (fun s f hs => Reach.next (.retry [f] s.2) hs)
+        (fun t n ht e he hs => hc.vanished _
+          (Reach.next (.world (sremove t.store n) t.answers t.pollErrs t.recErrs t.logged t.partials) ht) e he hs)
+        st fs fl hr ih.1 ih.2
 
 /-- C02 at the sender, repaired code: along every run (including restarts at any step
     boundary), whenever a source file is deleted, `Conf` holds for the version the cache
@@ -1558,6 +2117,75 @@ example :
       ({ cache := [⟨"a.f", 5, -3, "h", false⟩], store := [⟨"a.f", 5, -3, "h"⟩] }, [⟨"a.f", "h", 0⟩])).2 =
     [.poll ["a.f"], .answer "a.f" .none, .persist,
      .poll ["a.f"], .answer "a.f" .none, .retry "a.f", .persist] := by decide
+
+
+
+
+/-! ### the retry worker: non-vacuity and the seeded change C02e -/
+
+/-- non-vacuity of `retry_requeues_or_keeps` / `retry_run_requeues` / `retry_pushes_whole`: a refused file
+    whose cached hash is stale is re-hashed, re-added (not done) and queued whole with its predecessor. -/
+example :
+    retryRun Fixes.repaired { cache := [⟨"a.f", 5, -3, "old", false⟩], store := [⟨"a.f", 5, -3, "h"⟩] }
+      [⟨"a.f", "a.e"⟩] [] =
+    ({ cache := [⟨"a.f", 5, -3, "h", false⟩], dirty := true, store := [⟨"a.f", 5, -3, "h"⟩] },
+     [.cacheAdd "a.f", .push (.resume "a.f" "a.e" [⟨0, 5⟩])]) := by decide
+
+/-- every branch of startRetry in one run: `a` vanishes between Sync and open (done, nothing deleted by the
+    worker), `b` meets an open error (nothing at all), `c` a read error (re-added with an empty hash, queued),
+    `d` has no cache entry, `e` changed on disk, `g` was done and is re-added not done (repaired add); the
+    fault scripted for `b` is met once: the second `b` is re-hashed and queued. -/
+example :
+    retryRun Fixes.repaired
+      { cache := [⟨"a", 5, -3, "h", false⟩, ⟨"b", 5, -3, "h", false⟩, ⟨"c", 5, -3, "h", false⟩,
+                  ⟨"e", 5, -3, "h", false⟩, ⟨"g", 5, -3, "h", true⟩],
+        store := [⟨"a", 5, -3, "h"⟩, ⟨"b", 5, -3, "h2"⟩, ⟨"c", 5, -3, "h"⟩, ⟨"d", 5, -3, "h"⟩,
+                  ⟨"e", 6, -3, "h"⟩, ⟨"g", 5, -3, "h"⟩] }
+      [⟨"a", ""⟩, ⟨"b", "a"⟩, ⟨"c", "b"⟩, ⟨"d", ""⟩, ⟨"e", ""⟩, ⟨"g", "e"⟩, ⟨"b", "g"⟩]
+      [("a", .gone), ("b", .openErr), ("c", .readErr)] =
+    ({ cache := [⟨"a", 5, -3, "h", true⟩, ⟨"b", 5, -3, "h2", false⟩, ⟨"c", 5, -3, "", false⟩,
+                 ⟨"e", 5, -3, "h", false⟩, ⟨"g", 5, -3, "h", false⟩],
+       dirty := true,
+       store := [⟨"b", 5, -3, "h2"⟩, ⟨"c", 5, -3, "h"⟩, ⟨"d", 5, -3, "h"⟩, ⟨"e", 6, -3, "h"⟩, ⟨"g", 5, -3, "h"⟩] },
+     [.cacheDone "a" false,
+      .cacheAdd "c", .push (.resume "c" "b" [⟨0, 5⟩]),
+      .cacheAdd "g", .push (.resume "g" "e" [⟨0, 5⟩]),
+      .cacheAdd "b", .push (.resume "b" "g" [⟨0, 5⟩])]) := by decide
+
+/-- the seeded change C02e as a variant of `retryOne` (open and read errors merged, `Cache.Done` on any of
+    them; only the witness below uses it). -/
+def retryOneMerged (fx : Fixes) (s : St × List (Name × Fault)) (f : RFile) :
+    (St × List (Name × Fault)) × List Eff :=
+  match cget s.1.cache f.name with
+  | none => (s, [])
+  | some c =>
+    match sync s.1.store c with
+    | .same =>
+      match (takeFault s.2 f.name).1 with
+      | some .gone => retryOne fx s f
+      | some _ => ((s.1.cacheDone f.name, (takeFault s.2 f.name).2), [.cacheDone f.name false])
+      | none => retryOne fx s f
+    | _ => (s, [])
+
+/-- C02e: with the merged error handling a transient open error after a negative outcome marks the file
+    done although it is still there and was never confirmed, and the next scan clean-up deletes it; the
+    conclusion of `retry_releases_only_vanished` (`sfind … = none`) fails. The code as it is does nothing
+    on that error: the entry stays not done and the scan deletes nothing. -/
+theorem C02e_merged_errors_release_unconfirmed :
+    let st : St := { cache := [⟨"a.f", 5, -3, "h", false⟩], disk := [⟨"a.f", 5, -3, "h", false⟩],
+                     store := [⟨"a.f", 5, -3, "h"⟩] }
+    let bad := retryOneMerged Fixes.repaired (st, [("a.f", .openErr)]) ⟨"a.f", ""⟩
+    let good := retryOne Fixes.repaired (st, [("a.f", .openErr)]) ⟨"a.f", ""⟩
+    bad.2 = [.cacheDone "a.f" false] ∧ sfind bad.1.1.store "a.f" = some ⟨"a.f", 5, -3, "h"⟩ ∧
+    (scan Fixes.repaired envDel bad.1.1).effs =
+      [.storeRemove "a.f" ⟨"a.f", 5, -3, "h", true⟩ (some ⟨"a.f", 5, -3, "h"⟩), .cacheRemove "a.f", .persist] ∧
+    good = ((st, []), []) ∧ (scan Fixes.repaired envDel good.1.1).effs = [.persist] := by decide
+
+/-- `retry_releases_only_vanished` is not vacuous: the file vanishes between Sync and open. -/
+example :
+    Eff.cacheDone "a.f" false ∈
+      (retryRun Fixes.repaired { cache := [⟨"a.f", 5, -3, "h", false⟩], store := [⟨"a.f", 5, -3, "h"⟩] }
+        [⟨"a.f", ""⟩] [("a.f", .gone)]).2 := by decide
 
 
 
